@@ -209,3 +209,35 @@ fn t_ms_alloc_osstring_cstring() {
     p.push("a");
     assert!(p.heap_size() == p.capacity());
 }
+
+// ---- C08/C09: sequences mixing variants: every element counts, wherever the empty ones sit ------------------
+#[kani::proof]
+#[kani::unwind(5)]
+fn q_ms_seq_option_result() {
+    let c = any_cap(2);
+    let pat: [bool; 3] = kani::any();
+    let mut v: Vec<Option<String>> = Vec::with_capacity(3);
+    let mut expect = 0usize;
+    let mut i = 0;
+    while i < 3 {
+        if pat[i] { let s = String::with_capacity(c + i); expect += s.capacity(); v.push(Some(s)); } else { v.push(None); }
+        i += 1;
+    }
+    assert!(v.heap_size() == v.capacity() * size_of::<Option<String>>() + expect, "Vec<Option<String>>: an element after a None was not counted");
+    type O = Option<String>;
+    assert!(O::heap_size_sum_iter(|| v.iter()) == expect);
+    assert!(O::heap_size_sum_exact_size_iter(|| v.iter()) == expect);
+    let mut sum = 0; for e in v.iter() { sum += e.heap_size(); }
+    assert!(sum == expect);
+    let mut r: Vec<Result<String, Box<u16>>> = Vec::with_capacity(2);
+    let mut expect_r = 0usize;
+    let mut j = 0;
+    while j < 2 {
+        if pat[j] { let s = String::with_capacity(c); expect_r += s.capacity(); r.push(Ok(s)); } else { expect_r += 2; r.push(Err(Box::new(7))); }
+        j += 1;
+    }
+    assert!(r.heap_size() == r.capacity() * size_of::<Result<String, Box<u16>>>() + expect_r);
+    let a: [Option<Box<u32>>; 3] = [if pat[0] { Some(Box::new(1)) } else { None }, if pat[1] { Some(Box::new(2)) } else { None }, if pat[2] { Some(Box::new(3)) } else { None }];
+    let cnt = pat[0] as usize + pat[1] as usize + pat[2] as usize;
+    assert!(a.heap_size() == 4 * cnt);
+}
